@@ -62,6 +62,93 @@ def gen_startup(r, ncases):
     return ops
 
 
+DATA_QUANTS = [0, 0, 2, 3, 4, 8, 16, 32]
+_STYLE_OUTPUTS = {"identity": [0, 64, 128, 192, 255], "plateau": [0, 64, 128, 255], "shifted": [10, 70, 130, 190, 250]}
+
+
+def _fan_line_data(r, fid, kind=None):
+    """a fan declaration for the data stream: every quantiser with every configured map style (a map whose outputs
+    the device does not read back makes the measurement skip those points, possibly all of them), with and without
+    RPM input, occasionally without PWM read support, with a configured start PWM, or a fan that never rotates"""
+    kind = kind if kind is not None else r.pick(KINDS)
+    cfgmap = r.chance(0.35)
+    style = r.pick(["identity", "plateau", "shifted"])
+    quant = r.pick(DATA_QUANTS)
+    spinat = r.range(5, 90) if not r.chance(0.06) else r.pick([0, 1, 255, 256, 300])
+    line = (f"su.fan fan={fid} kind={kind} cfgmap={int(cfgmap)} minmax={int(r.chance(0.3))} hasrpm={int(r.chance(0.8))} "
+            f"ns={int(r.chance(0.4))} quant={quant} spinat={spinat} mapstyle={style}")
+    if r.chance(0.15):
+        line += " pwmread=0"
+    if r.chance(0.2):
+        line += f" startpwm={r.pick([0, 1, 30, 64, 100, 128, 200, 254, 255])}"
+    return line, (style if cfgmap else None), quant
+
+
+def gen_startup_data(r, ncases):
+    """what the analysis COMPUTES: sequences of start / init / reset / delmap / re-declaration over one or two fans, each
+    followed by `su.data` (stored PWM map, stored RPM curve, limits derived from it, device registers); `su.poke` puts
+    the device registers into a chosen state before an operation (outputs of the map in use included: the "nothing to
+    do" shortcut of setPwm); `su.settle` runs waitForFanToSettle on a scripted RPM input"""
+    ops = []
+    for ci in range(ncases):
+        p = r.below(2)
+        ops.append(f"#case su parallel={p}")
+        ops.append(f"su.open parallel={p} yield_us=0")
+        nf = 1 if r.chance(0.7) else 2
+        ids = ["fa", "fb"][:nf]
+        info = {}
+        for j, fid in enumerate(ids):
+            line, style, quant = _fan_line_data(r, fid, KINDS[(ci + j) % 2] if j == 0 else None)
+            info[fid] = (style, quant)
+            ops.append(line)
+        if r.chance(0.3):
+            ops.append(f"su.data fan={ids[0]}")
+        n = r.range(1, 5)
+        for i in range(n):
+            fid = r.pick(ids)
+            style, quant = info[fid]
+            if r.chance(0.5):
+                pool = [0, 1, 100, 128, 255, r.range(0, 255), r.range(0, 255)]
+                if style:
+                    pool += _STYLE_OUTPUTS[style] * 2
+                if quant > 1:
+                    pool += [quant, 3 * quant, (255 // quant) * quant]
+                poke = f"su.poke fan={fid} pwm={r.pick(pool)}"
+                if r.chance(0.2):
+                    poke += f" mode={r.pick([0, 1, 2, 5])}"
+                ops.append(poke)
+            w = r.pick(["start"] * 5 + ["init"] * 3 + ["reset", "delmap", "redeclare"])
+            if w == "redeclare":
+                line, style, quant = _fan_line_data(r, fid)
+                info[fid] = (style, quant)
+                ops.append(line)
+            else:
+                ops.append(f"su.{w} fan={fid}")
+            ops.append(f"su.data fan={fid}")
+        if r.chance(0.25):
+            # waitForFanToSettle: stable, drifting, failing reads, odd thresholds (0 and negative included)
+            thr = r.pick([20.0, 20.0, 10.0, 1.0, 0.5, 100.0, 0.0, -1.0, 19.5, 1e300])
+            k = r.below(4)
+            if k == 0:
+                rpms = [str(r.pick([0, 5, 19, 20, 21, 500, 2550]))]
+            elif k == 1:
+                base = r.range(0, 2000)
+                rpms = [str(max(0, base + r.range(-40, 40))) for _ in range(r.range(1, 14))]
+            elif k == 2:
+                rpms = [r.pick(["e", "e", str(r.range(0, 900))]) for _ in range(r.range(1, 8))] + [str(r.range(0, 900))]
+            else:
+                rpms = [str(r.range(0, 3000)) for _ in range(r.range(1, 25))]
+            if r.chance(0.05):
+                rpms.append("e")     # unreadable for ever: never settles
+            ops.append(f"su.settle fan={ids[0]} thr={_fbits(thr)} rpms={','.join(rpms)} limit=60")
+    return ops
+
+
+def _fbits(x):
+    import struct
+    return "x%016x" % struct.unpack("<Q", struct.pack("<d", float(x)))[0]
+
+
 def gen_together(r, ncases, parallel):
     """2..4 hwmon fans that all need analysis, started concurrently with random delays (C16)"""
     ops = []
